@@ -8,6 +8,7 @@ os.makedirs(out, exist_ok=True)
 TARGETS = {
     "wasp/state.go": ("sync", "gotomic"),
     "wasp/idpool.go": ("sync",),
+    "wasp/writer.go": ("sync",),
     "wasp/ack/queue.go": ("gotomic",),
     "wasp/ack/export_verif.go": ("gotomic",),
     "wasp/expiration/pqueue.go": ("sync",),
